@@ -127,6 +127,12 @@ func runSimProp(t *testing.T, p *simProp) {
 			g := &core.Gen{M: sim.M, Mix: p.Mix, Lim: p.Lim}
 			if g.Lim.MaxAlive == 0 {
 				g.Lim = core.DefaultLimits
+				// one case in twelve is "wide": room for a fanout of > 32 targets in one relation node
+				if len(u.Rel) > 0 && rapid.IntRange(0, 11).Draw(rt, "wide") == 0 {
+					g.Wide = true
+					g.Lim.MaxAlive, g.Lim.MaxTotal = 140, 400
+					cs.Label("wide case")
+				}
 			}
 			tr := &tracker{sim: sim, cs: cs, written: map[int]int{}, flags: map[string]bool{}, counters: map[string]int{}}
 			if p.Setup != nil {
